@@ -257,6 +257,11 @@ func Main(t *testing.T, e Engine) {
 				fr = r.Fail.Rule
 			}
 			fmt.Fprintf(dump, "%d sig=%016x tape=%016x n=%d log=%016x steps=%d fail=%s\n", idx, r.Sig, h, len(r.Tape), lh, r.Steps, fr)
+			if os.Getenv("VERIF_DUMPLOG") != "" {
+				for _, l := range fmtLog(r.Log, 1<<30) {
+					fmt.Fprintf(dump, "    %s\n", l)
+				}
+			}
 		}
 		if len(st.Samples) < 2 && r.Fail == nil && (r.Multi || nf > 0) {
 			st.Samples = append(st.Samples, map[string]any{"run": idx, "steps": r.Steps, "sim_time": r.SimTime.String(),
